@@ -151,6 +151,9 @@ func (e *Env) specSort(s string) (string, types.Type) {
 			}
 		}
 	}
+	if s == "seq" {
+		return "RSeq", nil
+	}
 	switch s {
 	case "Int", "mathint", "time":
 		return "Int", types.Typ[types.Int]
@@ -546,6 +549,8 @@ func (e *Env) field(v Val, name string) Val {
 			u.enc.sortOf(t)
 			ft := s.Field(i).Type()
 			cur = Val{T: app(u.enc.accessor(t, i), cur.T), S: u.enc.sortOf(ft), Ty: ft}
+			// a reference held inside a Go struct value is an allocated one
+			e.closureFact(cur, "true")
 		}
 	}
 	return cur
@@ -814,6 +819,22 @@ func (e *Env) trCall(n *ECall) Val {
 	case "cap":
 		a := e.tr(n.Args[0])
 		return Val{T: app("sl_cap", a.T), S: "Int", Ty: intT}
+	case "seq": // the sequence of elements of a slice of references
+		a := e.tr(n.Args[0])
+		st, ok := a.Ty.Underlying().(*types.Slice)
+		if !ok || u.enc.sortOf(st.Elem()) != "Int" {
+			e.fail("seq() needs a slice of references or integers")
+		}
+		h := u.arrHeap(st.Elem())
+		return Val{T: app("slice_seq", sel(u.heapCur(e.cur, h), app("sl_base", a.T)), app("sl_off", a.T), app("sl_len", a.T)), S: "RSeq"}
+	case "seq_nil":
+		return Val{T: "seq_nil", S: "RSeq"}
+	case "single":
+		a := e.tr(n.Args[0])
+		return Val{T: app("seq_single", a.T), S: "RSeq"}
+	case "concat":
+		as := args()
+		return Val{T: app("seq_concat", as[0].T, as[1].T), S: "RSeq"}
 	case "base": // backing array identity of a slice
 		a := e.tr(n.Args[0])
 		return Val{T: app("sl_base", a.T), S: "Int", Ty: intT}
